@@ -108,7 +108,7 @@ def run(check):
     tasks += static_tasks(check, units, T)
     # ------------------------------------------------------------------ members of the quantity classes forward to the entry points
     from . import c02_members
-    c02_members.run(check, T)
+    c02_members.run_all(check)
     check.log('%d REAL obligations' % len(tasks))
     for t, ob in zip(tasks, pmap(lambda t: t.run(), tasks)):
         check.add(ob)
